@@ -212,7 +212,7 @@ class C17(Base):
             mode, k, needs, end, ops = parse_case(case)
         except Exception:
             return None if impl_obs == "bad-case" else "unparsable case accepted by the harness"
-        obs = impl_obs.split(";")
+        obs = impl_obs.split(";") if impl_obs else []
         if len(obs) != len(ops) + 1 or obs[0] != "hdr":
             return "observation count %d != op count %d (+hdr)" % (len(obs), len(ops))
         n = len(needs)
@@ -326,7 +326,7 @@ class C17(Base):
 
     def nontrivial(self, case, impl_obs):
         mode = case.partition(" ")[2][:1]
-        obs = impl_obs.split(";")
+        obs = impl_obs.split(";") if impl_obs else []
         if mode == "a":
             return any(o.startswith("P") for o in obs) and any(not o.endswith("!-") and "!" in o for o in obs)
         depths = {o.split("/")[1].split("#")[0] for o in obs if o.startswith("R")}
